@@ -17,3 +17,4 @@ pub mod refmodel;
 
 pub mod h_c09;
 pub mod h_ser;
+pub mod h_vm;
